@@ -3040,9 +3040,9 @@ let parse_float body =
               | None -> None)
            | _ :: _ -> None)))
 
-(** val p_yaml : nat -> string list -> (yaml * string list) option **)
+(** val p_yaml_raw : nat -> string list -> (yaml * string list) option **)
 
-let rec p_yaml f ts =
+let rec p_yaml_raw f ts =
   match f with
   | O -> None
   | S f' ->
@@ -3083,7 +3083,7 @@ let rec p_yaml f ts =
                                                     Some ((YSeq (rev0 acc0)),
                                                       ts0)
                                                   | S n' ->
-                                                    (match p_yaml f' ts0 with
+                                                    (match p_yaml_raw f' ts0 with
                                                      | Some p ->
                                                        let (y, ts1) = p in
                                                        go n' ts1 (y :: acc0)
@@ -3101,12 +3101,13 @@ let rec p_yaml f ts =
                                                          Some ((YMap
                                                            (rev0 acc0)), ts0)
                                                        | S n' ->
-                                                         (match p_yaml f' ts0 with
+                                                         (match p_yaml_raw f'
+                                                                  ts0 with
                                                           | Some p ->
                                                             let (k, ts1) = p
                                                             in
-                                                            (match p_yaml f'
-                                                                    ts1 with
+                                                            (match p_yaml_raw
+                                                                    f' ts1 with
                                                              | Some p0 ->
                                                                let (v, ts2) =
                                                                  p0
@@ -3123,7 +3124,8 @@ let rec p_yaml f ts =
                                                        false))
                                                   then (match unhex body with
                                                         | Some tg ->
-                                                          (match p_yaml f' ts' with
+                                                          (match p_yaml_raw
+                                                                   f' ts' with
                                                            | Some p ->
                                                              let (y, ts1) = p
                                                              in
@@ -3132,6 +3134,116 @@ let rec p_yaml f ts =
                                                            | None -> None)
                                                         | None -> None)
                                                   else None))
+
+(** val insert_by : ('a1 -> 'a1 -> bool) -> 'a1 -> 'a1 list -> 'a1 list **)
+
+let rec insert_by leb1 x l = match l with
+| [] -> x :: []
+| y :: l' -> if leb1 x y then x :: l else y :: (insert_by leb1 x l')
+
+(** val sort_by : ('a1 -> 'a1 -> bool) -> 'a1 list -> 'a1 list **)
+
+let sort_by leb1 l =
+  fold_right (insert_by leb1) [] l
+
+(** val yaml_text : yaml -> string **)
+
+let rec yaml_text = function
+| YNull ->
+  String ((Ascii (false, true, true, true, false, false, true, false)),
+    EmptyString)
+| YBool b ->
+  if b
+  then String ((Ascii (false, false, true, false, true, false, true, false)),
+         EmptyString)
+  else String ((Ascii (false, true, true, false, false, false, true, false)),
+         EmptyString)
+| YNum n0 ->
+  (match n0 with
+   | NInt z0 ->
+     append (String ((Ascii (true, false, false, true, false, false, true,
+       false)), EmptyString)) (z_to_string z0)
+   | NFloat f ->
+     append (String ((Ascii (false, false, true, false, false, false, true,
+       false)), EmptyString)) (hex f.f_yaml))
+| YStr s ->
+  append (String ((Ascii (true, true, false, false, true, false, true,
+    false)), EmptyString)) (hex s)
+| YSeq l ->
+  append
+    (append (String ((Ascii (false, false, true, true, false, false, true,
+      false)), EmptyString)) (nat_to_string (length l)))
+    (let rec go = function
+     | [] -> EmptyString
+     | x :: xs ->
+       append (String ((Ascii (false, false, false, false, false, true,
+         false, false)), EmptyString)) (append (yaml_text x) (go xs))
+     in go l)
+| YMap l ->
+  append
+    (append (String ((Ascii (true, false, true, true, false, false, true,
+      false)), EmptyString)) (nat_to_string (length l)))
+    (let rec go = function
+     | [] -> EmptyString
+     | p :: xs ->
+       let (k, v) = p in
+       append (String ((Ascii (false, false, false, false, false, true,
+         false, false)), EmptyString))
+         (append (yaml_text k)
+           (append (String ((Ascii (false, false, false, false, false, true,
+             false, false)), EmptyString)) (append (yaml_text v) (go xs))))
+     in go l)
+| YTagged (t, y') ->
+  append (String ((Ascii (true, true, true, false, false, false, true,
+    false)), EmptyString))
+    (append (hex t)
+      (append (String ((Ascii (false, false, false, false, false, true,
+        false, false)), EmptyString)) (yaml_text y')))
+
+(** val norm_in_key : yaml -> yaml **)
+
+let rec norm_in_key y = match y with
+| YSeq l ->
+  YSeq
+    (let rec go = function
+     | [] -> []
+     | x :: r -> (norm_in_key x) :: (go r)
+     in go l)
+| YMap l ->
+  YMap
+    (sort_by (fun a b -> leb0 (yaml_text (fst a)) (yaml_text (fst b)))
+      (let rec go = function
+       | [] -> []
+       | p :: r ->
+         let (k, v) = p in ((norm_in_key k), (norm_in_key v)) :: (go r)
+       in go l))
+| YTagged (t, y') -> YTagged (t, (norm_in_key y'))
+| _ -> y
+
+(** val norm_yaml : yaml -> yaml **)
+
+let rec norm_yaml y = match y with
+| YSeq l ->
+  YSeq
+    (let rec go = function
+     | [] -> []
+     | x :: r -> (norm_yaml x) :: (go r)
+     in go l)
+| YMap l ->
+  YMap
+    (let rec go = function
+     | [] -> []
+     | p :: r -> let (k, v) = p in ((norm_in_key k), (norm_yaml v)) :: (go r)
+     in go l)
+| YTagged (t, y') -> YTagged (t, (norm_yaml y'))
+| _ -> y
+
+(** val p_yaml : nat -> string list -> (yaml * string list) option **)
+
+let p_yaml f ts =
+  match p_yaml_raw f ts with
+  | Some p -> let (y, r) = p in Some ((norm_yaml y), r)
+  | None -> None
 
 (** val p_yamls : nat -> string list -> (yaml list * string list) option **)
 
@@ -3192,6 +3304,89 @@ let sp a b =
     (append (String ((Ascii (false, false, false, false, false, true, false,
       false)), EmptyString)) b)
 
+(** val canon_key : bool -> value -> string **)
+
+let rec canon_key flags = function
+| VNull ->
+  String ((Ascii (false, true, true, true, false, false, true, false)),
+    EmptyString)
+| VBool b ->
+  if b
+  then String ((Ascii (false, false, true, false, true, false, true, false)),
+         EmptyString)
+  else String ((Ascii (false, true, true, false, false, false, true, false)),
+         EmptyString)
+| VStr s ->
+  append (String ((Ascii (true, true, false, false, true, false, true,
+    false)), EmptyString)) (hex s)
+| VLit s ->
+  append (String ((Ascii (true, false, false, false, true, false, true,
+    false)), EmptyString)) (hex s)
+| VNum n0 ->
+  (match n0 with
+   | NInt z0 ->
+     append (String ((Ascii (true, false, false, true, false, false, true,
+       false)), EmptyString)) (z_to_string z0)
+   | NFloat f ->
+     append (String ((Ascii (false, false, true, false, false, false, true,
+       false)), EmptyString)) (hex f.f_yaml))
+| VMap es ->
+  append
+    (append (String ((Ascii (true, false, true, true, false, false, true,
+      false)), EmptyString)) (nat_to_string (length es)))
+    (concat_str
+      (sort_by leb0
+        (let rec go = function
+         | [] -> []
+         | e :: es' ->
+           let (p, o) = e in
+           let (p0, c) = p in
+           let (k, x) = p0 in
+           (append (String ((Ascii (false, false, false, false, false, true,
+             false, false)), EmptyString))
+             (append (canon_key flags k)
+               (append (String ((Ascii (false, false, false, false, false,
+                 true, false, false)), EmptyString))
+                 (append (canon_key flags x)
+                   (if flags
+                    then append
+                           (if c
+                            then String ((Ascii (false, false, false, false,
+                                   false, true, false, false)), (String
+                                   ((Ascii (true, true, false, false, false,
+                                   true, true, false)), EmptyString)))
+                            else String ((Ascii (false, false, false, false,
+                                   false, true, false, false)), (String
+                                   ((Ascii (true, false, true, true, false,
+                                   true, false, false)), EmptyString))))
+                           (if o
+                            then String ((Ascii (true, true, true, true,
+                                   false, true, true, false)), EmptyString)
+                            else String ((Ascii (true, false, true, true,
+                                   false, true, false, false)), EmptyString))
+                    else EmptyString))))) :: (go es')
+         in go es)))
+| VSeq l ->
+  append
+    (append (String ((Ascii (false, false, true, true, false, false, true,
+      false)), EmptyString)) (nat_to_string (length l)))
+    (let rec go = function
+     | [] -> EmptyString
+     | x :: xs ->
+       append (String ((Ascii (false, false, false, false, false, true,
+         false, false)), EmptyString)) (append (canon_key flags x) (go xs))
+     in go l)
+| VList l ->
+  append
+    (append (String ((Ascii (false, true, true, false, true, false, true,
+      false)), EmptyString)) (nat_to_string (length l)))
+    (let rec go = function
+     | [] -> EmptyString
+     | x :: xs ->
+       append (String ((Ascii (false, false, false, false, false, true,
+         false, false)), EmptyString)) (append (canon_key flags x) (go xs))
+     in go l)
+
 (** val canon : bool -> value -> string **)
 
 let rec canon flags = function
@@ -3230,7 +3425,7 @@ let rec canon flags = function
        let (k, x) = p0 in
        append (String ((Ascii (false, false, false, false, false, true,
          false, false)), EmptyString))
-         (append (canon flags k)
+         (append (canon_key flags k)
            (append (String ((Ascii (false, false, false, false, false, true,
              false, false)), EmptyString))
              (append (canon flags x)
@@ -3497,7 +3692,7 @@ let rec canon_err = function
     (String ((Ascii (false, true, true, true, false, true, true, false)),
     (String ((Ascii (true, true, false, false, true, true, true, false)),
     (String ((Ascii (false, false, true, false, true, true, true, false)),
-    EmptyString)))))))))))) (canon false k)
+    EmptyString)))))))))))) (canon_key false k)
 | EMerge (p, s, t) ->
   append (String ((Ascii (true, false, true, false, false, false, true,
     false)), (String ((Ascii (true, false, true, true, false, false, true,
